@@ -46,3 +46,12 @@ func Debug(tag string, v any)
 func StubBool() bool
 func StubU64() uint64
 func StubBytes(n int) []byte
+
+// Sched: a scheduling point (another goroutine may run here).  Settle: returns once no other goroutine can
+// run any more - each is finished or blocked for good.  (Engine flag -sched; natively Gosched / a short sleep.)
+func Sched()
+func Settle()
+
+// Atomic runs f as one step of the harness's own bookkeeping (no scheduling point inside; natively under one
+// process-wide lock).
+func Atomic(f func())
